@@ -158,6 +158,18 @@ func main() {
 		})
 	}
 
+	if dump := os.Getenv("VERIF_DUMP_DISAGREEMENTS"); dump != "" { // debugging aid: every disagreement, one JSON object per line
+		if f, err := os.Create(dump); err == nil {
+			enc := json.NewEncoder(f)
+			for _, d := range st.Disagreements {
+				enc.Encode(d)
+			}
+			for _, d := range st.DirectFail {
+				enc.Encode(d)
+			}
+			f.Close()
+		}
+	}
 	// ---- verdict -----------------------------------------------------------
 	findings := loadKnown(*known)
 	violations := 0
